@@ -52,6 +52,7 @@ type reply struct {
 	status int
 	prob   string
 	nonce  []string // Replay-Nonce header fields, in order
+	ra     string   // Retry-After header ("" = the harness default "-1")
 	body   string   // body token of a 2xx reply: <status>/<member>=<v>/…, "bad" = not JSON
 }
 
@@ -112,6 +113,9 @@ func (s *server) RoundTrip(req *http.Request) (*http.Response, error) {
 	// polling loops sleep for Retry-After (1 s if it is absent or 0) and the default backoff adds it to
 	// its jitter: a negative value makes both return at once
 	h.Set("Retry-After", "-1")
+	if r.ra != "" {
+		h.Set("Retry-After", r.ra)
+	}
 	body := "{}"
 	switch {
 	case r.prob != "":
@@ -264,7 +268,7 @@ func classify(err error) string {
 		return fmt.Sprintf("e%d:%s", ae.StatusCode, p)
 	case errors.Is(err, errTransport):
 		return "terr"
-	case errors.Is(err, context.Canceled):
+	case errors.Is(err, context.Canceled), errors.Is(err, context.DeadlineExceeded):
 		return "ctx"
 	}
 	return "other"
@@ -433,6 +437,90 @@ func execHTTP(o hx.Op) string {
 	return fmt.Sprintf("req=%s res=%s pool=%d", hx.JoinStrs(srv.reqs), hx.JoinStrs(res), acme.VerifNonceCount(c))
 }
 
+// execWait: the only real-time observable of this harness. A retriable reply asks the client to wait `dur`
+// ms (Retry-After under the default backoff, or a RetryBackoff returning it); the context is cancelled /
+// times out 50 ms into the call (or before it, or never). The call must come back long before `dur`.
+func execWait(o hx.Op) string {
+	dur := time.Duration(o.Int("dur")) * time.Millisecond
+	bad := reply{status: 503}
+	switch o.Str("status") {
+	case "429":
+		bad = reply{status: 429, prob: "urn:ietf:params:acme:error:rateLimited"}
+	case "bn":
+		bad = reply{status: 400, prob: "urn:ietf:params:acme:error:badNonce", nonce: []string{"nb"}}
+	}
+	useRA := o.Str("via") == "ra"
+	if useRA {
+		bad.ra = strconv.Itoa(int((dur + time.Second - 1) / time.Second))
+	}
+	srv := &server{nurl: true}
+	if o.Str("path") == "get" {
+		bad.nonce = nil
+		srv.script = []reply{bad, {status: 200, nonce: []string{"n1"}}}
+	} else {
+		srv.script = []reply{{status: 200, nonce: []string{"n1"}}, bad, {status: 200, nonce: []string{"n3"}}, {status: 200, nonce: []string{"n4"}}}
+	}
+	c := &acme.Client{Key: key(), KID: acme.KeyID(base + "acct/1"), DirectoryURL: base + "dir", HTTPClient: &http.Client{Transport: srv}}
+	if !useRA {
+		c.RetryBackoff = func(int, *http.Request, *http.Response) time.Duration { return dur }
+	}
+	ctx, cancel := context.WithCancel(context.Background())
+	defer cancel()
+	srv.cancel = cancel
+	trig, at := o.Str("trig"), o.Str("at")
+	switch {
+	case trig == "cancel" && at == "before":
+		cancel()
+	case trig == "deadline" && at == "before":
+		var c2 context.CancelFunc
+		ctx, c2 = context.WithDeadline(ctx, time.Now().Add(-time.Second))
+		defer c2()
+	case trig == "cancel":
+		t := time.AfterFunc(50*time.Millisecond, cancel)
+		defer t.Stop()
+	case trig == "deadline":
+		var c2 context.CancelFunc
+		ctx, c2 = context.WithTimeout(ctx, 50*time.Millisecond)
+		defer c2()
+	}
+	start := time.Now()
+	_, err := c.Discover(ctx)
+	res := classify(err)
+	if o.Str("path") == "post" {
+		res = classify(c.RevokeAuthorization(ctx, base+"authz"))
+	}
+	within := "fast"
+	if time.Since(start) >= 1500*time.Millisecond {
+		within = "slow"
+	}
+	return fmt.Sprintf("res=%s within=%s", res, within)
+}
+
+func genWait(g *hx.Gen) {
+	r := g.R
+	path, status := hx.Pick(r, []string{"get", "post"}), hx.Pick(r, []string{"503", "429", "bn"})
+	if path == "get" && status == "bn" {
+		status = "503" // a badNonce problem means nothing to an unsigned GET
+	}
+	trig, at, dur := hx.Pick(r, []string{"cancel", "deadline"}), "during", 3000
+	switch r.Intn(10) {
+	case 0, 1:
+		at = "before"
+	case 2, 3:
+		trig, dur = "none", r.Range(1, 30) // control: nothing disturbs a short wait, the retry goes through
+	case 4:
+		trig, dur = "none", 1700 // control for the clock: an undisturbed long wait does take that long
+		g.Stat("wait.undisturbed-long-wait")
+	}
+	via := hx.Pick(r, []string{"ra", "fn"})
+	if dur < 1000 {
+		via = "fn" // Retry-After has whole seconds only
+	}
+	g.Stat("op.wait")
+	cross(g, []string{"wait-" + path}, []string{"trig-" + trig + "-" + at, "status-" + status, "via-" + via})
+	g.Emit("wait path=%s trig=%s at=%s dur=%d status=%s via=%s", path, trig, at, dur, status, via)
+}
+
 func execPool(o hx.Op) string {
 	c := &acme.Client{}
 	var drains []string
@@ -494,6 +582,8 @@ func exec(line string) string {
 		return execPool(o)
 	case "dbo":
 		return execDbo(o)
+	case "wait":
+		return execWait(o)
 	}
 	return "bad-op"
 }
@@ -801,6 +891,8 @@ func gen(g *hx.Gen) {
 			hit("defaultBackoff-n", 4, map[bool]string{true: "lt1", false: map[bool]string{true: "gt30", false: map[bool]string{true: "ge5", false: "1to4"}[n >= 5]}[n > 30]}[n < 1])
 			g.Emit("dbo n=%d ra=%s", n, ra)
 			g.Stat("dbo.default-backoff")
+		} else if i%100 == 51 {
+			genWait(g)
 		} else if i%10 == 9 {
 			genPool(g)
 		} else if i%5 == 3 {
